@@ -120,7 +120,10 @@ def run(res, tier, rng, table_diffs=()):
     for n in range(1, 5):
         contents += ["".join(t) for t in itertools.product(alpha, repeat=n)]
     for _ in range(300 if tier == "quick" else 5000):
-        contents.append("".join(rng.pick(["a", '"', "\\", "n", "t", "é", "日", "😀", "\n", "\t", " ", "{}", "/", "0"]) for _ in range(rng.below(10))))
+        contents.append("".join(rng.pick(["a", '"', "\\", "n", "t", "é", "日", "😀", "\n", "\t", " ", "{}", "/", "0", "\x00", "\x01", "\x7f", "\U0010ffff"]) for _ in range(rng.below(10))))
+    # control characters inside string literals: every content up to length 3 over {a, NUL, quote, backslash}
+    for n in range(1, 4):
+        contents += ["".join(t) for t in itertools.product(["a", "\x00", '"', "\\"], repeat=n) if "\x00" in t]
     esc = core.model(["escape " + hx(s) for s in contents])
     progs = ['"' + unhx(e) + '"' for e in esc]
     pa = core.impl(["parse " + hx(p) for p in progs])
@@ -140,7 +143,9 @@ def run(res, tier, rng, table_diffs=()):
                 res.violation("model and parser.rs decode a string differently", dict(kind="model", input=p, impl=i, model=m, unchecked="correspondence unescape vs parse_string_expression"), no_input=True)
     # tokenizer correspondence on noise (nothing dropped: both sides must produce the same stream)
     pieces = ["a", "é", "1", "1.", ".5", "\"", "\\", "/", "//", "\n", " ", "=", "==", "!", "<", "&", "&&", "|", "№", "€", "‎", "\u0085",
-              "als", "stel", "ja", "_", "(", "}", "#", "@", "'", "😀", "\t", "\r", "0x1", "1e5", "1_0"]
+              "als", "stel", "ja", "_", "(", "}", "#", "@", "'", "😀", "\t", "\r", "0x1", "1e5", "1_0",
+              # control characters and other code points an "end of input" sentinel or a byte-wise scan could trip over
+              "\x00", "\x01", "\x7f", "\x1b", "\u00a0", "\ufeff", "\U0010ffff", "\x00", "// c\x00\n", "\"\x00\""]
     noise = []
     for _ in range(4000 if tier == "quick" else 60000):
         noise.append("".join(rng.pick(pieces) for _ in range(rng.range(1, 10))))
@@ -161,6 +166,17 @@ def run(res, tier, rng, table_diffs=()):
         res.seen("D" + src)
         if src != "\"a\\\\\" 1" and not r.startswith("err Syntax"):
             res.violation("part of the input was silently dropped", dict(kind="dropped", input=src, impl=r))
+    # a NUL (or any other control character) is an ordinary character of the text: inside a comment it is skipped with the
+    # comment, inside a string it is part of the string, elsewhere it is rejected — the text after it is never dropped
+    for src, want in [("1 // c\x00 d\n+ 2", "ok i:3"), ("1 //\x00\n+ 2", "ok i:3"), ("lengte(\"a\x00b\")", "ok i:3"), ("\"\x00\" == \"\x00\"", "ok b:ja"),
+                      ("1 \x00 + 1", "err Syntax"), ("1 + 1 \x00", "err Syntax"), ("\x00", "err Syntax"), ("1 \x01 + 1", "err Syntax"), ("stel a\x00b = 1; a", "err Syntax"),
+                      ("1 \x7f", "err Syntax"), ("1 // c\x01\x7f\n+ 2", "ok i:3")]:
+        r = core.impl(["eval 1000 " + hx(src)])[0]
+        res.seen("D" + src)
+        res.count("control-char-directed")
+        if not r.startswith(want):
+            res.violation("a control character in the text made the tokenizer drop or misread part of the input",
+                          dict(kind="control", input=src, expected=want, impl=r))
     if table_diffs:
         res.violation("the model's tables differ from the code's (keyword table)", dict(kind="tables", diffs=list(table_diffs)[:10], unchecked="table correspondence"), no_input=True)
 
@@ -168,6 +184,13 @@ def run(res, tier, rng, table_diffs=()):
 def replay(res, rp):
     src = rp["input"]
     cmd = "parse " if rp.get("kind") in ("string",) else "lex "
+    if rp.get("kind") == "control":
+        r = core.impl(["eval 1000 " + hx(src)])[0]
+        print(r)
+        if not r.startswith(rp["expected"]):
+            print("VIOLATION property=C08 replay=replay")
+            return 1
+        return 0
     if rp.get("kind") == "dropped":
         r = core.impl(["eval 1000 " + hx(src)])[0]
         print(r)
